@@ -410,6 +410,7 @@ def analyse_function(rep, prop, F, f, scalar, kind):
             a, b = pos(a), pos(b)
             if a == b:
                 continue
+            n_obs += round_obligation(rep, prop, f, "%s:%s%s" % (site0, what, case), a, orders, th_s, scalar)
             n_obs += 1
             site = "%s:%s%s:%s" % (site0, what, case, scalar)
             try:
@@ -430,6 +431,41 @@ def analyse_function(rep, prop, F, f, scalar, kind):
                 f["file"], f["line"]))
             rep.sample({"switch": site, "theta_s": th_s, "bound": bound, "leading_term": lead, "tolerance": tol}, limit=30)
     return n_obs
+
+
+ROUND_TOL = {"double": 1e-6}     # the accuracy the property statements name (C02, C05, C06: relative error about 1e-6 in double)
+
+
+def round_obligation(rep, prop, f, site, a, orders, th_s, scalar):
+    """R-ROUND: first-order rounding-error bound of the closed-form arm at its switch-over (engine/rounding.py)."""
+    from . import rounding as R
+    if scalar not in ROUND_TOL:
+        return 0
+    try:
+        # the flush-to-zero regime makes the bound non-monotone in theta: take the worst over a ladder of rotation
+        # magnitudes from the switch-over up to 0.1 (half-decade steps)
+        val, err, worst, th_at = None, -1.0, None, th_s
+        t = th_s
+        while t <= 0.1 or val is None:
+            v_, e_, w_ = R.bound(a, J.TH, t, orders, scalar)
+            if e_ / max(1.0, abs(v_)) > err / max(1.0, abs(val or 0.0)):
+                val, err, worst, th_at = v_, e_, w_, t
+            t *= 10 ** 0.5
+        th_s = th_at
+    except R.NotModelled as e:
+        rep.observations.append("R-ROUND: %s not modelled (%s)" % (site, e))
+        return 0
+    tol = ROUND_TOL[scalar] * max(1.0, abs(val))
+    # the order of magnitude of the bound is part of the site: a recorded finding does not cover the same cell getting worse
+    import math
+    mag = "1e%+03d" % int(round(math.log10(err))) if err > 0 else "0"
+    rep.obligation(err <= tol, lambda: C.Finding(
+        prop, "R-ROUND", "%s:~%s" % (site, mag),
+        "evaluated in %s at |theta| = %.3g (worst of a half-decade ladder from its switch-over up to 0.1) the closed-form arm has a first-order rounding-error bound of %.2e "
+        "(value %.3g; the sum %s cancels %.1e of its leading magnitude); the property allows about %.0e" % (scalar, th_s, err, val, worst[1], worst[0], ROUND_TOL[scalar]),
+        f["file"], f["line"]))
+    rep.sample({"round_site": site, "theta_s": th_s, "value": val, "rounding_bound": err, "tolerance": tol, "worst_sum": worst[1]}, limit=60)
+    return 1
 
 
 def check(rep, prop, select=None, scalars=("double", "float"), obs=None, clause=None, entire=False):
